@@ -183,6 +183,29 @@ ROUND3 = {
  'C20': 'the unmarking of the variable of integration is unconditional within its branch (V1); internalVariable() lookups in the marking loop are dominated by the same-model test (F1).',
 }
 
+ROUND4 = {
+ 'C01': 'shared stacks handed down by reference are balanced on every path (S1); the visited list of the equivalence search only grows (R1); every self-recursive call makes progress (R2); owner lookups and MathML child lookups are dereferenced only under a test or a recorded invariant (N1 with sa/tables/nullres_invariants.json); every branch of the validator\'s MathML dispatch checks arity (A1).',
+ 'C02': 'the 1.x transformation helpers run only under the 1.x mode (T1); sibling cursors advance only inside their loop (K1); complete walks, accumulating flags (W1, A1).',
+ 'C03': 'the unit reducers are executed symbolically per loop iteration, so the polynomial check no longer depends on statement placement (C08.M1 borrowed); removal of units clears their parent (C09.P3/P4 borrowed).',
+ 'C04': 'membership decided from the entity, not its name (B1); same-owner comparisons need a non-null side (C09.Q1 borrowed); complete walks, visit-all, loop-carried locals (W1, Y1, L1).',
+ 'C05': 'type transitions of internal variables by abstract execution over the enum: idempotent, STATE only from INITIALISED (M1); an overconstrained equation marks all its variables (O1); W1, Y1, S1, A1.',
+ 'C06': 'loop-carried locals (S1), complete walks (W1), no text search for markup (X1), accumulating flags (A2).',
+ 'C07': 'history-carrying functions do not call history-less wrappers on their own kind of entity (D1); no text search for markup (X1); W1, Y1, A1.',
+ 'C08': 'where the factor is applied (C03.S1-S3 borrowed); visit-all over connected variables (Y1); loop-carried locals (S1).',
+ 'C09': 'owner lookups (O1); "same owner" needs a non-null side (Q1); detach before attach (P2 order); null-flow follows lambda bodies.',
+ 'C10': 'children are matched one-to-one: every child-matching loop erases the matched partner (O1).',
+ 'C11': 'complete walks (W1); indexStackOf of an equivalent variable only for variables of the same model.',
+ 'C12': 'the reset at the start of a call empties all four logger vectors and clears imports below imported components too (C15.L3, C07.W1 borrowed).',
+ 'C13': 'an already-recorded flag is raised only under a test that mentions the entity being recorded (L2); W1, Y1, S1, A1.',
+ 'C14': 'the two legacy namespaces are removed independently (N2); sibling cursors (K1); loop-carried locals (S1).',
+ 'C15': 'setLevel only on a fresh issue that has not been added yet (V1); L3 recognises swap/assignment as emptying a vector.',
+ 'C16': 'number-or-reference decisions use the grammar recogniser (C01.V2 borrowed).',
+ 'C17': 'generateDoubleCode sees both exponent letters (D1); loadProfile assigns everything (C03.F1 borrowed); loop-carried locals and visit-all in generator.cpp (S1, Y1).',
+ 'C18': 'the equivalence queries of Variable read only the equivalence lists (F1).',
+ 'C19': 'removed units lose their parent, same-owner comparisons (C09.P3/P4/Q1 borrowed); W1, Y1, A1.',
+ 'C20': 'gates inside analyseModel test errorCount() only (G2); external unknowns are pruned before NLA siblings are determined (N2).',
+}
+
 NOT_YET = {}
 
 NA = {}
@@ -203,7 +226,7 @@ def main():
                 'evidence_file': 'evidence/%s.json' % pid,
                 'replay_cmd_template': './check --replay {path}',
                 'engine': 'sa',
-                'level_claimed': {'category': 'other', 'text': c['text'] + (' Added after round-3 seeding: ' + ROUND3[pid] if pid in ROUND3 else ''), 'design_ref': c['ref']},
+                'level_claimed': {'category': 'other', 'text': c['text'] + (' Added after round-3 seeding: ' + ROUND3[pid] if pid in ROUND3 else '') + (' Added after round-4 seeding: ' + ROUND4[pid] if pid in ROUND4 else ''), 'design_ref': c['ref']},
                 'level_note': c['note'],
                 'technique': c['technique'],
             })
